@@ -95,6 +95,20 @@ pub fn check_all(xs: &[i64], p: f64, shape: u8) -> Result<(), String> {
          return Err(format!("percentile({p})({}) = {got:?}, expected the element of rank {rank} = {}", show(xs), sorted[rank]));
       }
    }
+   // one percentile closure applied to several groups in a row (a rule binds the aggregator once and applies it per
+   // group): every application is a function of its own input only
+   let f = catch(|| percentile(p)).map_err(|e| format!("percentile({p}) panicked: {e}"))?;
+   for (lo, hi) in [(0usize, n.min(1)), (0, n), (0, 0), (n / 2, n), (0, n.min(1)), (0, n)] {
+      let g = &xs[lo..hi];
+      let got: Vec<i64> = catch(|| f(Box::new(shaped(g, shape).map(|x| (x,))) as Box<dyn Iterator<Item = (&i64,)>>).collect())
+         .map_err(|e| format!("a reused percentile({p}) closure panicked on {} values: {e}", g.len()))?;
+      let mut sg = g.to_vec();
+      sg.sort();
+      let want: Vec<i64> = if g.is_empty() { vec![] } else { vec![sg[((g.len() as f64 * p / 100.0) as usize).min(g.len() - 1)]] };
+      if got != want {
+         return Err(format!("a percentile({p}) closure applied to several groups in a row returned {got:?} for {}, expected {want:?}", show(g)));
+      }
+   }
    Ok(())
 }
 
